@@ -526,7 +526,39 @@ def run(ctx, repo, tier):
                  for s in sorts)
         ctx.check(ok, "DOM", "C13.merge.resort", f"group `{tgt}` is re-sorted after members are added to it", fm.where, src(call),
                   witness=f"no `{tgt}.sort()` follows the extension inside the same iteration")
-    if not ext:
+    # a group may also be REPLACED by the concatenation of groups:  L[c] = [x for r in rows for x in L[r]]  /  L[a] + L[b]  /  sum(.., [])
+    concat = []
+    for n in ast.walk(fm.node):
+        if isinstance(n, ast.Assign) and len(n.targets) == 1 and isinstance(n.targets[0], ast.Subscript) and isinstance(n.targets[0].value, ast.Name) and \
+                n.targets[0].value.id not in local_dicts and not isinstance(n.targets[0].slice, ast.Slice):
+            base = n.targets[0].value.id
+            v = n.value
+            inner = v
+            sorted_wrap = False
+            while isinstance(inner, ast.Call) and src(inner.func) in ("sorted", "list", "np.sort", "numpy.sort") and inner.args:
+                sorted_wrap = sorted_wrap or src(inner.func) in ("sorted", "np.sort", "numpy.sort")
+                inner = inner.args[0]
+            reads_groups = any(isinstance(x, ast.Subscript) and isinstance(x.value, ast.Name) and x.value.id == base for x in ast.walk(inner))
+            flattening = (isinstance(inner, (ast.ListComp, ast.GeneratorExp)) and len(inner.generators) >= 2) or \
+                (isinstance(inner, ast.BinOp) and isinstance(inner.op, ast.Add)) or \
+                (isinstance(inner, ast.Call) and src(inner.func).split(".")[-1] in ("sum", "chain", "from_iterable", "concatenate", "hstack"))
+            if reads_groups and flattening:
+                concat.append((n, src(n.targets[0]), sorted_wrap))
+    for n, tgt, sorted_wrap in concat:
+        ctx.instance("DOM")
+        lp = getattr(n, "_parent", None)
+        while lp is not None and not isinstance(lp, (ast.For, ast.While, ast.FunctionDef)):
+            lp = getattr(lp, "_parent", None)
+        later_sort = any(isinstance(c, ast.Call) and isinstance(c.func, ast.Attribute) and c.func.attr == "sort" and src(c.func.value) == tgt and
+                         c.lineno > n.lineno for c in ast.walk(lp if lp is not None else fm.node))
+        if sorted_wrap or later_sort:
+            ctx.ok("DOM", "C13.merge.resort", f"group `{tgt}` is rebuilt from the joined groups and sorted", fm.where, norm_stmt(n)[:140])
+        else:
+            ctx.violate("DOM", "C13.merge.resort", f"group `{tgt}` is rebuilt by chaining the joined groups without sorting: each group is sorted, "
+                        "their concatenation is not when the groups interleave (a group from an earlier merge holding a cell larger than the "
+                        "smallest cell of the group it is joined with), so the index list no longer consists of sorted groups", fm.where,
+                        norm_stmt(n)[:140], witness="merge [[0,2]] then [[0,1]] on 4 cells gives [[0,2,1],[3]]")
+    if not ext and not concat:
         ctx.inconclusive("DOM", "C13.merge.resort.count", "no extension of a group of the index list found", fm.where)
     # returned pair
     _check_return_pair(ctx, oa_m, fm, "C13.merge")
@@ -608,8 +640,13 @@ def run(ctx, repo, tier):
         tag = f"C13.normalise.{mode}"
         ok = False
         wit = vstr(res.origin if isinstance(res, ObjV) else res)[:300]
+        swapped_sparse = False
         if mode == "sparse" and T.is_sparse(res) and isinstance(res.origin, Term) and res.origin.op == "spadd":
             a, b = res.origin.args
+            if isinstance(a, Term) and a.op == "sparse" and a.args and isinstance(a.args[0], Term) and a.args[0].op == "diags" and \
+                    not (isinstance(b, Term) and b.op == "sparse" and b.args and isinstance(b.args[0], Term) and b.args[0].op == "diags"):
+                a, b = b, a
+                swapped_sparse = True
             da = b.args[0] if isinstance(b, Term) and b.op == "sparse" else None
             if isinstance(da, Term) and da.op == "diags" and da.args:
                 v = da.args[0]
@@ -622,6 +659,8 @@ def run(ctx, repo, tier):
                     v.args[0].kw["uid"].v == a.kw["uid"].v and isinstance(off, Num) and off.p.is_zero()
         if mode == "dense" and isinstance(res, Term) and res.op == "add":
             a, b = res.args
+            if isinstance(a, Term) and a.op == "diag" and not (isinstance(b, Term) and b.op == "diag"):
+                a, b = b, a          # dense addition commutes and keeps the ndarray type
             if isinstance(b, Term) and b.op == "diag" and b.args:
                 v = b.args[0]
                 if isinstance(v, Grid) and isinstance(v.elem, Term) and v.elem.op == "neg":
@@ -630,7 +669,13 @@ def run(ctx, repo, tier):
                         isinstance(red.kw.get("over"), TupleV) and \
                         [x.p for x in red.kw["over"].items] == [Poly.atom(ax[0]) for ax in a.dims[1]] and vkey(red.args[0]) == vkey(a.elem)
         r = contains_top(res)
-        if ok:
+        if ok and swapped_sparse:
+            ctx.violate("KERNEL", tag, "sparse branch: the sum is written `diags(...) + M`.  scipy gives a sum the container type of its LEFT "
+                        "operand and `diags(..., format='csr')` is a csr_matrix, so a csr_array comes back as a csr_matrix: every "
+                        "`isinstance(m, csr_array)` branch of this module then takes the dense path on the next operation (np.diag of an "
+                        "(n,1) matrix picks one element, the addition broadcasts it), and repeated deletions on sparse input return wrong "
+                        "numbers", fn.where, "return my_matrix + sum_diag", witness=wit)
+        elif ok:
             ctx.ok("KERNEL", tag, f"{mode} branch returns M + diag(-row sums of M) (axis 1)", fn.where, derived=wit)
         elif r:
             ctx.inconclusive("KERNEL", tag, f"{mode} branch of sqra_normalize not derived", fn.where, witness=r)
